@@ -482,6 +482,9 @@ func TestPropBuffer(t *testing.T) {
 			// a Shape, many cheap uses in one step, possibly a coordinates change, the same Shape again
 			q := drawBufShape(rt, m)
 			m.apply(q)
+			if rapid.IntRange(0, 2).Draw(rt, "doBurst") != 0 {
+				return
+			}
 			pf := m.pfs[q.Slot]
 			if len(pf.Axes) > 0 && rapid.Bool().Draw(rt, "designBurst") {
 				m.apply(bufOp{Kind: "burst_design", Slot: q.Slot, Count: drawBurstN(rt, len(pf.GIDs) < 300), AltDesign: drawDesign(rt, pf), cfgOp: cfgOp{Design: drawDesign(rt, pf)}})
